@@ -567,7 +567,29 @@ class Interp:
         raise _Continue()
 
     def s_With(self, st, env, module):
-        raise Unsupported("with statement")
+        """context managers: interpreter objects through their __enter__/__exit__ methods, native objects (incl. the
+        abstractions a contract installs for a library class) through the Python protocol; exceptions are re-raised after
+        __exit__ (no suppression modelled)"""
+        managers = []
+        for item in st.items:
+            cm = self.eval(item.context_expr, env, module)
+            if isinstance(cm, Obj):
+                val = self.call(self.getattr(cm, "__enter__"), [], {})
+            elif hasattr(cm, "__enter__"):
+                val = cm.__enter__()
+            else:
+                raise Unsupported(f"with statement on {type(cm).__name__}")
+            managers.append(cm)
+            if item.optional_vars is not None:
+                self.assign_target(item.optional_vars, val, env, module)
+        try:
+            self.exec_block(st.body, env, module)
+        finally:
+            for cm in reversed(managers):
+                if isinstance(cm, Obj):
+                    self.call(self.getattr(cm, "__exit__"), [None, None, None], {})
+                else:
+                    cm.__exit__(None, None, None)
 
     # ---- loops
     def _loop_spec(self, node):
@@ -926,7 +948,14 @@ class Interp:
                 return getattr(o, name)
             except AttributeError as e:
                 raise PyRaise("AttributeError", str(e))
-        if type(o).__name__ in ("SpVal", "SpBool") or type(o).__module__.startswith("scipy.stats"):
+        if type(o).__module__.startswith("numpy.random") or type(o).__name__ == "Random":
+            # a generator OBJECT (np.random.Generator / RandomState / random.Random): never run natively (the result would be
+            # a concrete random number inside a symbolic run); a contract may install a ledger callback
+            cb = getattr(self, "private_rng", None)
+            if cb is None:
+                raise Unsupported(f"random draw from a generator object ({type(o).__name__}.{name})")
+            return self.lib.Model(lambda interp, *a, **k: cb(o, name, a, k), f"{type(o).__name__}.{name}")
+        if type(o).__name__ in ("SpVal", "SpBool") or type(o).__module__.startswith(("scipy.stats", "contracts.")):
             try:
                 return getattr(o, name)
             except AttributeError as e:
